@@ -281,7 +281,12 @@ fn check_unused_defines(
             0,
             &hierarchy);
 
-        if let None = maybe_decl
+        // A define only ever replaces the value of a constant
+        let is_constant = maybe_decl
+            .map(|item_ref| decls.symbols.get(item_ref).kind)
+            .map_or(false, |kind| matches!(kind, util::SymbolKind::Constant));
+
+        if !is_constant
         {
             report.error(
                 format!(
